@@ -10,7 +10,7 @@ RULE = ("generated programs (instruction sets of C01; global and nested labels, 
         "position q*G+r = span offset, address, data digits = the output bits at that position, excerpt = the source bytes of the "
         "span, which lie on the line of the item whose definition-computed encoding they carry; label rows carry the label's value; "
         "symbol tables = exactly the declared, non-suppressed, integer-valued symbols in declaration order with their final values; "
-        "mesen offsets = address - bank start + outp/8 - 16 for labels outside the header. The Lean listing model renders the same "
+        "mesen offsets = (address - bank start) * address unit / 8 + outp/8 - 16 for labels outside the header (banks with 8-, 16- and 32-bit units, a bank without output).  The Lean listing model renders the same "
         "spans and must agree byte for byte. Non-trivial = distinct programs with at least three emitted items.")
 
 BASES = [2, 4, 8, 16, 32, 64, 128]
@@ -144,11 +144,56 @@ def check_mesen(text, symdefs):
         if d["bank"]["outp"] is None:
             want.append("R:%x:%s" % (v, nm))
         else:
-            off = v - a0 + d["bank"]["outp"] // 8 - 16
+            off = (v - a0) * d["bank"].get("addr_unit", 8) // 8 + d["bank"]["outp"] // 8 - 16
             if v >= a0 and off >= 0:
                 want.append("P:%x:%s" % (off, nm))
     got = [l for l in text.split("\n") if l != ""]
     return None if got == want else "listed %s, expected %s" % (got[:6], want[:6])
+
+
+def gen_mesen(rng):
+    """a 16-byte header bank, a PRG bank behind it whose address unit is 8, 16 or 32 bits, a bank without output: (program,
+    the lines the Mesen label file must have: P:<byte offset in the file - 16> for labels of banks with output, none for
+    labels inside the header, R:<address> for labels of banks without output)"""
+    unit = rng.choice([8, 16, 16, 32])
+    a0 = rng.choice([0, 0x8000, 0xc000, 0x10])
+    lines = ["#bankdef header { #addr 0, #size 0x10, #outp 0 }",
+             "#bankdef prg { #bits %d, #addr 0x%x, #size 0x200, #outp 8 * 0x10 }" % (unit, a0),
+             "#bankdef ram { #bits %d, #addr 0x%x, #size 0x100 }" % (rng.choice([8, 16]), rng.choice([0, 0x200])),
+             "#bank header"]
+    want = []
+    k = 0
+    pos = 0
+    for i in range(16):
+        if rng.random() < 0.15:
+            lines.append("h%d:" % k); k += 1          # inside the header: no P: line
+        lines.append("    #d8 %d" % rng.randrange(256))
+    if rng.random() < 0.5:
+        lines.append("hend:")                          # at file offset 0x10, in the header bank: PRG offset 0
+        want.append("P:0:hend")
+    lines.append("#bank prg")
+    pos = 0
+    for i in range(rng.randrange(2, 9)):
+        if rng.random() < 0.6:
+            nm = "p%d" % i
+            if rng.random() < 0.3 and i:
+                nm = "p%d.in" % (i - 1) if ("p%d:" % (i - 1)) in lines else nm
+            lines.append((("." + nm.split(".")[1]) if "." in nm else nm) + ":")
+            want.append("P:%x:%s" % (pos // 8, nm.replace(".", "_")))
+        n = rng.randrange(1, 4)
+        lines.append("    #d%d %s" % (unit, ", ".join(str(rng.randrange(1 << min(unit, 16))) for _ in range(n))))
+        pos += unit * n
+    lines.append("#bank ram")
+    runit = int(lines[2].split("#bits ")[1].split(",")[0])
+    ra0 = int(lines[2].split("#addr ")[1].split(",")[0], 16)
+    rpos = 0
+    for i in range(rng.randrange(1, 4)):
+        lines.append("r%d:" % i)
+        want.append("R:%x:r%d" % (ra0 + rpos // runit, i))
+        n = rng.randrange(1, 4)
+        lines.append("    #res %d" % n)
+        rpos += n * runit
+    return "\n".join(lines) + "\n", want
 
 
 def run(chk):
@@ -271,12 +316,35 @@ def run(chk):
             for d in sd:
                 if d["no_emit"] or not d["value"].startswith("int "):
                     continue
-                b = "-" if d["bank"] is None else "%s/%s" % (d["bank"]["addr_start"]["v"], "n" if d["bank"]["outp"] is None else d["bank"]["outp"])
+                b = "-" if d["bank"] is None else "%s/%s/%s" % (d["bank"]["addr_start"]["v"], d["bank"].get("addr_unit", 8), "n" if d["bank"]["outp"] is None else d["bank"]["outp"])
                 rows.append("%s:%s:%s:%s" % (fw.hx(d["name"]), "c" if d["kind"] == "Constant" else "l", d["value"].split(" ")[1], b))
             mops.append("lsy %s %s" % (kind[0], ",".join(rows) or "-"))
             mfor.append((inp, a["text"] or "-"))
         if err:
             chk.violate("the %s listing does not describe the output" % kind[0], inp, "rows consistent with spans, bits, symbols and source", err + " | " + text[:300])
+    # ---- Mesen label files for banks whose address unit is not a byte
+    mcases = [gen_mesen(rng) for _ in range(1500 if thorough else 200)]
+    mo = ["lst %s %s" % (fw.hx("mesen-mlb"), fw.asm_op([("main.asm", t)])) for t, _ in mcases]
+    mimpl = fw.run_oracle_resilient(mo, "c12m")
+    for (t, want), a in zip(mcases, mimpl):
+        chk.evaluations += 1
+        inp = {"format": "mesen-mlb", "files": {"main.asm": t}}
+        if "text" not in a:
+            chk.violate("no Mesen label file for a well-formed program", inp, "\n".join(want), str(a)[:300])
+            continue
+        text = bytes.fromhex(a["text"]).decode("utf-8", "replace")
+        chk.nontriv(t)
+        chk.count("mesen_units")
+        if [l for l in text.split("\n") if l] != want:
+            chk.violate("the Mesen label file is not consistent with the layout", inp, "\n".join(want), text[:300])
+        rows = []
+        for d in a["symdefs"]:
+            if d["no_emit"] or not d["value"].startswith("int "):
+                continue
+            b = "-" if d["bank"] is None else "%s/%s/%s" % (d["bank"]["addr_start"]["v"], d["bank"].get("addr_unit", 8), "n" if d["bank"]["outp"] is None else d["bank"]["outp"])
+            rows.append("%s:%s:%s:%s" % (fw.hx(d["name"]), "c" if d["kind"] == "Constant" else "l", d["value"].split(" ")[1], b))
+        mops.append("lsy mesen %s" % (",".join(rows) or "-"))
+        mfor.append((inp, a["text"] or "-"))
     model = fw.run_model(mops, "c12")
     for (inp, itext), m in zip(mfor, model):
         chk.evaluations += 1
